@@ -55,6 +55,32 @@ def param_programs():
         m.s = h.Vsin(voff=0, vamp=1, freq=1 * h.prefix.M)(p=m.a, n=m.b)
         return m
     yield ("params/partial-sources", partial_pulse)
+    # modules defined outside any Python module (exec / notebook cell / `python -c`): their exported names are un-dotted
+    def undotted():
+        code = ("import hdl21 as h\n"
+                "m = h.Module(name='Undot')\nm.a = h.Port()\nm.r = h.R(r=1)(p=m.a, n=m.a)\n"
+                "top = h.Module(name='UndotTop')\ntop.s = h.Signal()\ntop.i = m(a=top.s)\n")
+        g = {}
+        exec(code, g)
+        return g["top"]
+    yield ("params/undotted-module-names", undotted)
+
+    # equal parameter values written differently on instances of one primitive / external module in one package
+    def equal_spelled_differently():
+        from decimal import Decimal as D
+        E = h.ExternalModule(name="EXTQ", port_list=[h.Inout(name="p"), h.Inout(name="n")], paramtype=dict, desc="",
+                             domain="dom")
+        m = h.Module(name="PQ")
+        m.a, m.b = h.Signal(), h.Signal()
+        m.r1 = h.R(r=1 * h.prefix.µ)(p=m.a, n=m.b)
+        m.r2 = h.R(r=1000 * h.prefix.n)(p=m.a, n=m.b)
+        m.r3 = h.R(r=h.Prefixed(number=D("0.0010"), prefix=h.Prefix.MILLI))(p=m.a, n=m.b)
+        m.c1 = h.C(c=h.Prefixed(number=D("2.5"), prefix=h.Prefix.PICO))(p=m.a, n=m.b)
+        m.c2 = h.C(c=h.Prefixed(number=D("2.50"), prefix=h.Prefix.PICO))(p=m.a, n=m.b)
+        m.e1 = E(w=1 * h.prefix.K, k=1)(p=m.a, n=m.b)
+        m.e2 = E(w=1000 * h.prefix.UNIT, k=1.0)(p=m.a, n=m.b)
+        return m
+    yield ("params/equal-values-spelled-differently", equal_spelled_differently)
     from vlsirtools import SpiceType
     for st in SpiceType:
         def b(st=st):
